@@ -10,11 +10,14 @@ missed = [m for m in rows if m['initially_missed']]
 own = sorted(os.path.basename(f) for f in glob.glob(V + '/mutants/*.diff'))
 out = '''## 10. Sensitivity: which check catches which seeded change
 
-Three waves of fourteen independent sub-agents (one per claimed property and wave) were each given
+Four waves of fourteen independent sub-agents (one per claimed property and wave) were each given
 only the text of one property and a scratch git worktree of /repo, nothing from /verif, and asked
 for a small realistic change that breaks the property, still compiles, passes the repository's
 tests and needs something specific to manifest, with a demonstration. The second and third wave
-were steered to a different anchor file of the property than the earlier ones. All %d changes were
+were steered to a different anchor file of the property than the earlier ones, the fourth to a
+kind of manifestation the earlier ones had not used (a boundary of a tuning constant, state that
+survives between sessions or compilations, a transient fault, a count field, a release ordering).
+All %d changes were
 confirmed by `bin/confirm-seeded` (patch applies to HEAD; `go build ./...`; `go test` of every
 package except the root passes; the demonstration fails with the change and passes without it) and
 are kept under `/verif/seeded/<name>/` (patch.diff, demonstration, NOTES.md of the sub-agent,
@@ -23,9 +26,9 @@ reverts; %d own mutants live under `/verif/mutants/` (hand-made ones and every `
 reversed).
 
 %d of the %d were **missed at first** (6 of 14 in the first wave, 3 of 14 in the second, 1 of 14
-in the third) and led to the extensions marked below; no oracle was loosened or tightened for
-them - only workloads, fault kinds, the independence of the harness's expectations, and (C04) one
-more monitor clause changed.
+in the third, 5 of 14 in the fourth) and led to the extensions marked below; no oracle was loosened or tightened for
+them - only workloads, fault kinds, scheduling points, the independence of the harness's
+expectations, (C04) one more monitor clause and (C11) one narrow clause for a new fault kind changed.
 
 | change | property | what was changed | needs | clause that fires | missed at first? |
 |---|---|---|---|---|---|
@@ -51,6 +54,23 @@ What the misses taught (kept as rules for the workloads):
 * The harness's expectation must not be computed with the library function under test: type
   infos of generated signatures are built directly and compared structurally, not through
   `types.Parse` / `Info.String` (C14-c).
+
+* A release (Pool.Put, channel send, atomic store, unlock) needs a scheduling point *after* it as
+  well as before: code that still touches what it has just handed over is only visible if another
+  task can run before the releaser's next statement (C17-d).
+* Tuning constants hide whole protocols behind sizes no test circuit reaches: the triple pool's
+  refill protocol only starts above 260000 AND gates. The overlay turns such constants into
+  per-run knobs (default = the source's value) so that small cases cross the boundary (C10-d).
+* "Stalls and is aborted" has a second half: after a stall the simulator closes the sockets and
+  lets the parties run on, because the wrong answer may only be returned then (C16-d); count and
+  length fields are rewritten arithmetically (zero, minus one, halved), not only bit-flipped.
+* A transport can fail once and work again (write timeout); the sender must be told (C11-d).
+* Other tuning parameters in an earlier compilation of the same process are part of "history"
+  (C08-d). State that survives between runs also misleads in-process shrinking: the orchestrator
+  falls back to the unshrunk tape and, if needed, to the worker's process history.
+* A deferred "done = true" in a harness task also runs when the kernel unwinds blocked tasks at
+  the end of a run; the harness asks `rt.Unwinding()` (found with C10-d: the verdict was right,
+  the clause name was not).
 
 Own mutants (`/verif/mutants/*.diff`; `revert-<commit>` is a `fix:` commit reversed): ''' + ', '.join(own) + '''.
 
